@@ -272,7 +272,7 @@ class RDTrajectory :
         * if policy = "infeq", the closest index for which t[i]<=t is returned. None is returned if there is not such value.
         """
         t = UnitValue(t, self.t.units, convert=True)
-        if policy not in ["closest", "sup", "inf", "supeq", "infeq"] :
+        if policy not in ["closest", "supeq", "infeq"] :
             raise ValueError("invalid policy value. accepted values are : \"closest\", \"supeq\" and \"infeq\".")
         found=False
         
